@@ -19,7 +19,9 @@ the characters `% ; |` are written `%XX`.
 `promote <kind>`               → `1` | `0`      (`maybe_promote(dtype)[0] == dtype`)
 `autofill <kind>`              → `1` | `0`      (`np.issubdtype(dtype, np.floating)`)
 `fill <mem> <disk> <enc:absent|none|value> <attr:0|1>` → `<encoding slot after disable> <file has _FillValue>`
-`timecoord <generic|shoc_standard|shoc_simple> name|units-or-!|dt;…` → name | `-`
+`timecoord <generic|shoc_standard|shoc_simple> <dims,|-> name|units-or-!|dt;…` → name | `-`
+`timecoordcur …` same line → what the present SHOC overrides return (a bare dimension counts)
+`savetime …`     same line → variable whose units `to_netcdf` rewrites | `-` | `ERR` (save raises)
 `propcheck offset <m>`         → `1` iff parseOffset (formatOffset m) = some m
 `propcheck offsetcur <m>`      → same for the unrepaired formatter
 `propcheck fmt <calendar> <units…>` → `1` iff output (if any) has the EMS form and the same instant
@@ -169,15 +171,22 @@ def step (line : String) : String :=
         else "BAD"
       | _, _, _, _ => "BAD"
     | _ => "BAD"
-  | "timecoord" =>
-    let (conv, vs) := cut rest
+  | "timecoord" | "timecoordcur" | "savetime" =>
+    let (conv, r1) := cut rest
+    let (dims, vs) := cut r1
     let k : Option ConvKind := match String.ofList conv with
       | "generic" => some .generic | "shoc_standard" => some .shocStandard
       | "shoc_simple" => some .shocSimple | _ => none
+    let dims : List String := if dims = ['-'] then [] else (String.ofList dims).splitOn ","
     match k, parseTVars? vs with
-    | some k, some vs => match timeCoordinate k vs with
-      | some n => n
-      | none => "-"
+    | some k, some vs =>
+      match String.ofList op with
+      | "timecoord" => (timeCoordinate k vs).getD "-"
+      | "timecoordcur" => (timeCoordinateCurrent k dims vs).getD "-"
+      | _ => match saveTimeVariable (timeCoordinateCurrent k dims vs) vs with
+        | none => "-"
+        | some (some n) => n
+        | some none => "ERR"
     | _, _ => "BAD"
   | "propcheck" =>
     let (what, r1) := cut rest
